@@ -27,8 +27,8 @@ instance : Sgn Float32 where
 instance : Sgn Float where
   signum x := if x.isNaN then x else if (x.toBits >>> 63) == 1 then -1 else 1
 
-/-- `impl Scalar for f32`: `EPSILON = 1e-4`; `epsilon_for` matches on `reference.abs() as i32`
-(note the gap `4096..=5095`, which falls to the `_ => 1.0` arm — mirrored as is). -/
+/-- `impl Scalar for f32`: `EPSILON = 1e-4`; `epsilon_for` matches on `reference.abs() as i32`.
+(Before fix b6989654 the arm `5096..=65535` left `4096..=5095` to `_ => 1.0`.) -/
 instance : Eps Float32 where
   epsilon := Float32.ofScientific 1 true 4
   epsilonFor r :=
@@ -36,7 +36,7 @@ instance : Eps Float32 where
     if n ≤ 7 then Float32.ofScientific 1 true 5
     else if n ≤ 1023 then Float32.ofScientific 1 true 3
     else if n ≤ 4095 then Float32.ofScientific 1 true 2
-    else if 5096 ≤ n ∧ n ≤ 65535 then Float32.ofScientific 1 true 1
+    else if 4096 ≤ n ∧ n ≤ 65535 then Float32.ofScientific 1 true 1
     else if 65536 ≤ n ∧ n ≤ 8388607 then 0.5
     else 1.0
 
@@ -216,15 +216,16 @@ def qPush (t1 t2 : α) : List α :=
   (if inUnit t1 then [t1] else []) ++ (if inUnit t2 && !(t1 == t2) then [t2] else [])
 
 /-- The root computation of `line_intersections_t` on the coefficients `a`, `b`, `c`.
-NOTE the linear branch computes `c / b` where the comment in the Rust source says it solves
-`bt + c = 0` (whose solution is `-c / b`): mirrored as is, see `C12.quad_line_linear_witness`. -/
+The linear branch solves `bt + c = 0` as `-c / b` (since fix 37d6f3b8; before it computed
+`c / b`: parabola (0,0) (1,1) (2,0) against the line x = 1/2 returned nothing, against x = -1/2
+returned t = 1/4 whose point (1/2, 3/8) is not on the line). -/
 def solve (a b c : α) : List α :=
   if a == zero then
-    -- IEEE: `b == 0` gives `t = c/0 ∈ {±inf, NaN}`, not pushed; the fall-through computes
+    -- IEEE: `b == 0` gives `t = -c/0 ∈ {±inf, NaN}`, not pushed; the fall-through computes
     -- `delta = 0`, `t1 = 0/0 = NaN`: nothing pushed.  `b ≠ 0` and `t` outside [0,1]: the
     -- fall-through has `delta = b²`, `t1 = -2b/0 = ±inf`, `t2 = c/(0·inf) = NaN`: nothing pushed.
     if b == zero then []
-    else if inUnit (c / b) then [c / b] else []
+    else if inUnit (-c / b) then [-c / b] else []
   else if qDelta a b c ≥ zero then
     -- IEEE: `t1 == 0` gives `t2 = c/(a·0) ∈ {±inf, NaN}`; whichever way the swap goes exactly
     -- the zero is pushed.
@@ -360,10 +361,24 @@ def liCoefB (c : Cubic α) (l : Line α) : α := l.vector.y * (liP2 c).x - l.vec
 def liCoefC (c : Cubic α) (l : Line α) : α := l.vector.y * (liP3 c).x - l.vector.x * (liP3 c).y
 def liCoefD (c : Cubic α) (l : Line α) : α := l.vector.y * c.a.x - l.vector.x * c.a.y + liC0 l
 
-/-- `CubicBezierSegment::line_intersections_t` -/
+/-- the root finder applied to the coefficients for a given line (the body of
+`line_intersections_t` after the line has been normalised) -/
+def lineRoots (c : Cubic α) (l : Line α) : List α :=
+  (Roots.cubicPolynomialRoots (liCoefA c l) (liCoefB c l) (liCoefC c l) (liCoefD c l)).filter inUnit
+
+/-- `len = line.vector.length()` -/
+def lineLen (l : Line α) : α := Transc.sqrt l.vector.sqLen
+/-- `Line { point, vector: vector / len }` -/
+def unitLine (l : Line α) : Line α := ⟨l.point, l.vector.sdiv (lineLen l)⟩
+
+/-- `CubicBezierSegment::line_intersections_t`.  Since fix ba950a71 the line's direction is
+normalised first and only a zero (or non-finite) length yields "no intersection"; before, every
+line with `|vector|² < EPSILON` did (witness: cubic (0,0) (1,2) (2,-2) (3,0), line through
+(3/2,0) with vector (0,1/200): crossing at t = 1/2 was not reported). -/
 def lineIntersectionsT (c : Cubic α) (l : Line α) : List α :=
-  if l.vector.sqLen < Eps.epsilon then []
-  else (Roots.cubicPolynomialRoots (liCoefA c l) (liCoefB c l) (liCoefC c l) (liCoefD c l)).filter inUnit
+  if lineLen l == zero then []
+  else if !(Transc.isFinite (lineLen l)) then []
+  else lineRoots c (unitLine l)
 
 /-- `CubicBezierSegment::line_intersections` -/
 def lineIntersections (c : Cubic α) (l : Line α) : List (P α) :=
